@@ -14,12 +14,14 @@ func init() {
 		Explain: "Static structural necessary conditions of 'a full scan returns every stable key exactly once': " +
 			"(cursor-names-existing-table) a resume cursor pointing at the next table is built from cf+1 only on the edge where tablesByCoefficient[cf+1] exists, otherwise from the unmodified result of findCoefficient; " +
 			"(scan-index-registration) tablesByCoefficient names exactly the live tables: never deleted under the (zeroed) coefficient of a recycled table, every Reset is preceded by unregistering, every table appended to the store is registered and a reused table is writable again; " +
+			"(insert-into-writable-head) Put and PutRaw insert into the last table only after makeTable ran or after its state was found to be ReadWriteState: a recycled table left last by a transfer is not registered for scans and is skipped by Export; " +
 			"(table-scan-cursor) Table.Scan/ScanRegexMatch return only the incoming cursor, offset+1 of the entry just yielded, or 0 where the iterator is exhausted; " +
 			"(index-insert-retires-old / single-live-version / delete-pairing) the per-table scan index holds exactly the live versions (shared with C11); " +
 			"(lookup-*) shared with C11; (page-dedup) the cluster iterator appends a key to the page only on the not-seen edge of its per-partition key set; " +
 			"(partition-advance-guarded) the iterator leaves a partition only when both owner lists are exhausted and drops an owner only after it returned cursor 0. " +
 			"NOT decided: termination and completeness of the cursor walk as a whole (value-level), owner bookkeeping of the cluster iterator, concurrent writes during iteration.",
 		Run: func(r *core.Run) {
+			kvInsertIntoWritableHead(r)
 			kvScanCursor(r)
 			kvScanIndexRegistration(r)
 			tableScanCursor(r)
